@@ -86,9 +86,9 @@ func main() {
 	}
 
 	if cfg.Shard == "" { // not a vx shard worker: run (or serve) the history searches first
-		pd, td := 6, 5
+		pd, td := 7, 5
 		if cfg.Thorough() {
-			pd, td = 8, 7
+			pd, td = 9, 7
 		}
 		pd, td = envInt("C03_PERIOD_DEPTH", pd), envInt("C03_TOKEN_DEPTH", td)
 		budget := cfg.Deadline().Sub(cfg.Start)
